@@ -873,6 +873,9 @@ class FnTranslator:
             return TSeq(self.ty(t.args[0]))
         if nm == "Option" and len(t.args) == 1:
             return TOption(self.ty(t.args[0]))
+        if nm == "VecMap" and len(t.args) == 1:
+            # `vec_map::VecMap<V>`: a map from small `usize` keys; represented by its entries, `get` = `Rs.vecMapGet` (genpm)
+            return TSeq(TTuple([TInt("usize"), self.ty(t.args[0])]))
         if nm in ("Enumerate", "Iter") and len(t.args) == 1:
             return TIter(self.ty(t.args[0]), nm == "Enumerate")
         if nm in self.generics and not t.args:
@@ -1322,6 +1325,15 @@ class FnTranslator:
             if not isinstance(t, TSeq):
                 self.err("`.enumerate()` on %r" % (t,), e)
             return "(%s, 0)" % r, TIter(t.elem, True)      # fresh `Enumerate`: all items, counter 0 (genpm)
+        if nm == "copied" and not e.args and e.recv.kind == "mcall" and e.recv.name == "get" and len(e.recv.args) == 1:
+            # `map.get(k).copied()` on a `VecMap` (genpm)
+            r, t = self.expr(e.recv.recv, code)
+            if not (isinstance(t, TSeq) and isinstance(t.elem, TTuple) and len(t.elem.items) == 2 and t.elem.items[0] == TInt("usize")):
+                self.err("`.get(k).copied()` on %r (only `VecMap` is translated)" % (t,), e)
+            k_, kt = self.expr(e.recv.args[0], code, TInt("usize"))
+            if kt != TInt("usize"):
+                self.err("`VecMap::get` with a key of type %r" % (kt,), e)
+            return "Rs.vecMapGet %s %s" % (atom(r), atom(k_)), TOption(t.elem.items[1])
         if nm in ("is_some", "is_none") and not e.args:
             r, t = self.expr(e.recv, code)
             if not isinstance(t, TOption):
@@ -2694,6 +2706,26 @@ unit(name="SrcBndmNext", props="property C08", file="src/pattern_matching/bndm.r
                      # unit than the model's fuel for the final test of the condition
                      fuel=["text.length - window + 2", "m + 2"],
                      params=[], ret="Option<usize>", theorem="RbV.Thm.GenSrcBndmNext.next_eq_model")])
+
+
+unit(name="SrcBomNext", props="property C08", file="src/pattern_matching/bom.rs",
+     aliases={"TextSlice": "&[u8]"},
+     functions=[dict(name="BOM::delta", lean="delta", header="fn delta(&self, q: usize, a: u8) -> Option<usize>",
+                     self_fields=[("table", "Vec<VecMap<usize> >")], params=[("q", "usize"), ("a", "u8")],
+                     ret="Option<usize>", theorem="RbV.Thm.GenSrcBomNext.delta_eq_model"),
+                dict(name="BOM::find_all", lean="findAll",
+                     header="pub fn find_all<'a>(&'a self, text: TextSlice<'a>) -> Matches<'_>",
+                     self_fields=[("m", "usize")], params=[("text", "TextSlice")], ret="(TextSlice, usize)",
+                     struct_fields={"Matches": [("text", "TextSlice"), ("window", "usize")]},
+                     theorem="RbV.Thm.GenSrcBomNext.findAll_init"),
+                dict(name="Matches::next", lean="next", header="fn next(&mut self) -> Option<usize>",
+                     self_fields=[("bom.m", "usize"), ("bom.table", "Vec<VecMap<usize> >"), ("text", "TextSlice"),
+                                  ("window", "usize")],
+                     locals={"q": "Option<usize>", "j": "usize"},
+                     calls={"self.bom.delta": dict(lean="delta", self_args=["bom.table"], args=["usize", "u8"],
+                                                   ret="Option<usize>")},
+                     fuel=["text.length - window + 2", "m + 2"],
+                     params=[], ret="Option<usize>", theorem="RbV.Thm.GenSrcBomNext.next_eq_model")])
 
 
 # ---- genpm: distance functions and approximate matchers (C09) -------------------------------------------------------
